@@ -42,19 +42,15 @@ Proof.
   - simpl. inversion IH as [|? ? H1 _]; subst. rewrite H1; [reflexivity|]. apply (cf_child _ _ Hcf). left. reflexivity.
 Qed.
 
-(* strictly inside a call-free spine the pruned specification lists nothing *)
-Lemma inner_cf_nil : forall v, CF v -> inner false v = [].
-Proof.
-  induction v using node_children_ind. rename H into IH. intros Hcf.
-  pose proof (all_here _ _ Hcf) as Hl.
-  destruct v; simpl in Hl; try contradiction; try reflexivity.
-  - cbn [inner]. inversion IH as [|? ? H1 _]; subst.
-    destruct (is_nameable v); [apply H1; apply (cf_child _ _ Hcf); left; reflexivity|reflexivity].
-  - cbn [inner]. inversion IH as [|? ? H1 _]; subst. rewrite app_nil_r.
-    destruct (is_nameable v1); [apply H1; apply (cf_child _ _ Hcf); left; reflexivity|reflexivity].
-  - cbn [inner]. inversion IH as [|? ? H1 _]; subst.
-    destruct (is_nameable v); [apply H1; apply (cf_child _ _ Hcf); left; reflexivity|reflexivity].
-Qed.
+(* strictly inside a call-free spine the pruned specification lists exactly the occurrences of the indexes / slices *)
+Lemma inner_cf_attr v a c p : CF (EAttr v a c p) -> inner false (EAttr v a c p) = if is_nameable v then inner false v else [].
+Proof. intros _. cbn [inner]. reflexivity. Qed.
+Lemma inner_cf_star v c p : inner false (EStar v c p) = if is_nameable v then inner false v else [].
+Proof. cbn [inner]. reflexivity. Qed.
+Lemma inner_cf_sub v sl c p : inner false (ESub v sl c p) = (if is_nameable v then inner false v else []) ++ occs false sl.
+Proof. cbn [inner]. reflexivity. Qed.
+Lemma inner_cf_other v : CF v -> is_nameable v = false -> inner false v = [].
+Proof. intros H Hn. pose proof (all_here _ _ H) as Hl. destruct v; simpl in Hl; try contradiction; try discriminate; reflexivity. Qed.
 
 Lemma kf_c10_plain n : plain n = true -> KF_C10_1 n = false.
 Proof. intros H. unfold KF_C10_1. rewrite H. reflexivity. Qed.
@@ -106,74 +102,133 @@ Section Complete.
       + apply (Hrep2 y nm Hy Hin).
   Qed.
 
-  (* attribute / subscript / starred over v *)
-  Lemma compound_good n v c0 :
+  (* what the visit of the slices passed over by a name reports *)
+  Definition slices_good (m : node) : Prop :=
+    forall s, fst (spine_with V m s) = Ok tt
+              /\ forall nm, In (AGet, nm) (inner false m) -> reported nm (snd (spine_with V m s)).
+
+  Lemma mono_spine_V m : mono (spine_with V m).
+  Proof. apply mono_spine. apply visit_retval_mono. Qed.
+
+  (* attribute / subscript / starred over v; m2 = the visit of the slices, L2 what it reports *)
+  Lemma compound_good n v c0 m2 (L2 : list occ) :
     plain n = true -> c0 = Load -> KF_C10_1 n = false ->
     (is_nameable v = false -> good v) ->
-    forall s, fst (compound_body n v c0 (V v) s) = Ok tt
-              /\ reported (spell n) (snd (compound_body n v c0 (V v) s))
-              /\ (is_nameable v = false -> forall nm, In (AGet, nm) (occs false v) -> reported nm (snd (compound_body n v c0 (V v) s))).
+    mono m2 ->
+    (forall s, fst (m2 s) = Ok tt /\ forall nm, In (AGet, nm) L2 -> reported nm (snd (m2 s))) ->
+    forall s, fst (compound_body n v c0 (V v) m2 s) = Ok tt
+              /\ reported (spell n) (snd (compound_body n v c0 (V v) m2 s))
+              /\ (is_nameable v = false -> forall nm, In (AGet, nm) (occs false v) -> reported nm (snd (compound_body n v c0 (V v) m2 s)))
+              /\ (forall nm, In (AGet, nm) L2 -> reported nm (snd (compound_body n v c0 (V v) m2 s))).
   Proof.
-    intros Hp -> Hk Hv s. unfold compound_body.
+    intros Hp -> Hk Hv Hmono H2 s. unfold compound_body.
     destruct (get_and_verify_cf n Load s Hp) as [Hok Hext]. rewrite (bind_ok _ _ s _ Hok).
     set (s1 := snd (get_and_verify_name n Load s)) in *.
     destruct (is_nameable v) eqn:En.
-    - cbn [bind ret]. unfold bind, ret. simpl. repeat split.
+    - rewrite (bind_ok (ret tt) _ s1 tt eq_refl). cbn [snd ret].
+      destruct (H2 s1) as [Hok2 Hrep2]. rewrite (bind_ok _ _ s1 tt Hok2). cbn [update_results add_get fst snd v_gets].
+      repeat split.
       + exists (spell_base n). apply rmem_radd_self.
       + intros H; discriminate H.
-    - destruct (Hv eq_refl s1) as [Hok2 Hrep2]. rewrite (bind_ok _ _ s1 tt Hok2). simpl. repeat split.
+      + intros nm Hin. destruct (Hrep2 nm Hin) as (b & Hb). exists b. apply rmem_radd. exact Hb.
+    - destruct (Hv eq_refl s1) as [Hok1 Hrep1]. rewrite (bind_ok _ _ s1 tt Hok1).
+      set (s2 := snd (V v s1)) in *.
+      destruct (H2 s2) as [Hok2 Hrep2]. rewrite (bind_ok _ _ s2 tt Hok2). cbn [update_results add_get fst snd v_gets].
+      repeat split.
       + exists (spell_base n). apply rmem_radd_self.
-      + intros _ nm Hin. destruct (Hrep2 nm Hin) as (b & Hb). exists b. apply rmem_radd. exact Hb.
+      + intros _ nm Hin. destruct (reported_ext nm s2 _ (Hmono s2) (Hrep1 nm Hin)) as (b & Hb). exists b. apply rmem_radd. exact Hb.
+      + intros nm Hin. destruct (Hrep2 nm Hin) as (b & Hb). exists b. apply rmem_radd. exact Hb.
   Qed.
 
-  Theorem call_free_loads_are_complete : forall n, CF n -> good n.
+  (* the slices of a subscript node: its own index, then those further down the spine *)
+  Lemma sub_slices v sl :
+    good sl -> slices_good v ->
+    forall s, fst ((V sl ;;; spine_with V v) s) = Ok tt
+              /\ forall nm, In (AGet, nm) (occs false sl ++ inner false v) -> reported nm (snd ((V sl ;;; spine_with V v) s)).
+  Proof.
+    intros Hsl Hv s. destruct (Hsl s) as [Hok Hrep]. rewrite (bind_ok _ _ s tt Hok).
+    destruct (Hv (snd (V sl s))) as [Hok2 Hrep2]. split; [exact Hok2|].
+    intros nm Hin. apply in_app_or in Hin as [Hin|Hin].
+    - eapply reported_ext; [apply mono_spine_V | exact (Hrep nm Hin)].
+    - exact (Hrep2 nm Hin).
+  Qed.
+
+  Theorem call_free_loads_are_complete_and_slices : forall n, CF n -> good n /\ slices_good n.
   Proof.
     induction n using node_children_ind. rename H into IH. intros Hcf.
     pose proof (all_here _ _ Hcf) as Hl. pose proof (cf_plain n Hcf) as Hp.
-    assert (Hkids : Forall good (children n)).
+    assert (Hkids2 : Forall (fun x => good x /\ slices_good x) (children n)).
     { rewrite Forall_forall in IH |- *. intros x Hx. apply IH; [exact Hx|apply (cf_child _ _ Hcf Hx)]. }
+    assert (Hkids : Forall good (children n)).
+    { rewrite Forall_forall in Hkids2 |- *. intros x Hx. exact (proj1 (Hkids2 x Hx)). }
+    assert (Htriv : forall m, spine_with V m = ret tt -> inner false m = [] -> slices_good m).
+    { intros m E1 E2 s. rewrite E1, E2. split; [reflexivity | intros ? []]. }
     destruct n; simpl in Hl; try contradiction.
     - (* Name *)
-      destruct c; try contradiction. intros s. rewrite visit_name.
+      destruct c; try contradiction. split; [|apply Htriv; reflexivity].
+      intros s. rewrite visit_name.
       destruct (get_and_verify_cf (EName id Load p) Load s Hp) as [Hok Hext]. rewrite (bind_ok _ _ s _ Hok). simpl.
       split; [reflexivity|]. intros nm [H|[]]. cbn [kind_of_ctx] in H. injection H as <-. exists id. apply rmem_radd_self.
     - (* Attribute *)
-      destruct c; try contradiction. intros s. rewrite visit_attr.
-      simpl in Hkids. inversion Hkids as [|? ? Hv _]; subst.
-      destruct (compound_good (EAttr n a Load p) n Load Hp eq_refl (kf_c10_plain _ Hp) (fun _ => Hv) s) as (H1 & H2 & H3).
-      split; [exact H1|]. intros nm Hin. cbn [occs] in Hin. rewrite (kf_c10_plain _ Hp) in Hin.
-      apply in_app_or in Hin. destruct Hin as [[H|[]]|Hin].
-      + rewrite (spell_u_spell _ Hcf) in H. cbn [kind_of_ctx] in H. injection H as <-. exact H2.
-      + destruct (is_nameable n) eqn:En.
-        * rewrite (inner_cf_nil n (cf_child _ _ Hcf (or_introl eq_refl))) in Hin. destruct Hin.
-        * apply (H3 eq_refl nm Hin).
+      destruct c; try contradiction.
+      simpl in Hkids2. pose proof (Forall_inv Hkids2) as [Hv Hsv].
+      assert (Hsl : forall s, fst (spine_with V n s) = Ok tt /\ forall nm, In (AGet, nm) (if is_nameable n then inner false n else []) -> reported nm (snd (spine_with V n s))).
+      { intros s. destruct (Hsv s) as [H1 H2]. split; [exact H1|]. intros nm Hin. destruct (is_nameable n); [exact (H2 nm Hin) | destruct Hin]. }
+      split.
+      + intros s. rewrite visit_attr.
+        destruct (compound_good (EAttr n a Load p) n Load _ _ Hp eq_refl (kf_c10_plain _ Hp) (fun _ => Hv) (mono_spine_V n) Hsl s) as (H1 & H2 & H3 & H4).
+        split; [exact H1|]. intros nm Hin. cbn [occs] in Hin. rewrite (kf_c10_plain _ Hp) in Hin.
+        apply in_app_or in Hin. destruct Hin as [[H|[]]|Hin].
+        * rewrite (spell_u_spell _ Hcf) in H. cbn [kind_of_ctx] in H. injection H as <-. exact H2.
+        * destruct (is_nameable n) eqn:En; [exact (H4 nm Hin) | exact (H3 eq_refl nm Hin)].
+      + intros s. cbn [spine_with]. destruct (Hsl s) as [H1 H2]. split; [exact H1|].
+        intros nm Hin. cbn [inner] in Hin. destruct (is_nameable n); [exact (H2 nm Hin) | destruct Hin].
     - (* Subscript *)
-      destruct c; try contradiction. intros s. rewrite visit_sub.
-      simpl in Hkids. inversion Hkids as [|? ? Hv _]; subst.
-      destruct (compound_good (ESub n1 n2 Load p) n1 Load Hp eq_refl (kf_c10_plain _ Hp) (fun _ => Hv) s) as (H1 & H2 & H3).
-      split; [exact H1|]. intros nm Hin. cbn [occs] in Hin. rewrite (kf_c10_plain _ Hp), app_nil_r in Hin.
-      apply in_app_or in Hin. destruct Hin as [[H|[]]|Hin].
-      + rewrite (spell_u_spell _ Hcf) in H. cbn [kind_of_ctx] in H. injection H as <-. exact H2.
-      + destruct (is_nameable n1) eqn:En.
-        * rewrite (inner_cf_nil n1 (cf_child _ _ Hcf (or_introl eq_refl))) in Hin. destruct Hin.
-        * apply (H3 eq_refl nm Hin).
+      destruct c; try contradiction.
+      simpl in Hkids2. pose proof (Forall_inv Hkids2) as [Hv Hsv]. pose proof (Forall_inv (Forall_inv_tail Hkids2)) as [Hgsl _].
+      assert (Hsl : forall s, fst ((V n2 ;;; spine_with V n1) s) = Ok tt
+                              /\ forall nm, In (AGet, nm) (occs false n2 ++ (if is_nameable n1 then inner false n1 else [])) ->
+                                            reported nm (snd ((V n2 ;;; spine_with V n1) s))).
+      { intros s. destruct (sub_slices n1 n2 Hgsl Hsv s) as [H1 H2]. split; [exact H1|]. intros nm Hin. apply H2.
+        apply in_app_or in Hin as [Hin|Hin]; apply in_or_app; [left; exact Hin|]. destruct (is_nameable n1); [right; exact Hin | destruct Hin]. }
+      assert (Hm2 : mono (V n2 ;;; spine_with V n1)).
+      { apply mono_bind; [apply (all_here _ _ (visit_retval_mono mexists modulename n2)) | intros; apply mono_spine_V]. }
+      split.
+      + intros s. rewrite visit_sub.
+        destruct (compound_good (ESub n1 n2 Load p) n1 Load _ _ Hp eq_refl (kf_c10_plain _ Hp) (fun _ => Hv) Hm2 Hsl s) as (H1 & H2 & H3 & H4).
+        split; [exact H1|]. intros nm Hin. cbn [occs] in Hin. rewrite (kf_c10_plain _ Hp) in Hin.
+        apply in_app_or in Hin. destruct Hin as [[H|[]]|Hin].
+        * rewrite (spell_u_spell _ Hcf) in H. cbn [kind_of_ctx] in H. injection H as <-. exact H2.
+        * apply in_app_or in Hin. destruct Hin as [Hin|Hin].
+          -- destruct (is_nameable n1) eqn:En; [apply H4; apply in_or_app; right; exact Hin | exact (H3 eq_refl nm Hin)].
+          -- apply H4. apply in_or_app. left. exact Hin.
+      + intros s. cbn [spine_with]. destruct (Hsl s) as [H1 H2]. split; [exact H1|].
+        intros nm Hin. cbn [inner] in Hin. apply H2. apply in_app_or in Hin as [Hin|Hin]; apply in_or_app.
+        * right. destruct (is_nameable n1); [exact Hin | destruct Hin].
+        * left. exact Hin.
     - (* Starred *)
-      destruct c; try contradiction. intros s. rewrite visit_star.
-      simpl in Hkids. inversion Hkids as [|? ? Hv _]; subst.
-      destruct (compound_good (EStar n Load p) n Load Hp eq_refl (kf_c10_plain _ Hp) (fun _ => Hv) s) as (H1 & H2 & H3).
-      split; [exact H1|]. intros nm Hin. cbn [occs] in Hin. rewrite (kf_c10_plain _ Hp) in Hin.
-      apply in_app_or in Hin. destruct Hin as [[H|[]]|Hin].
-      + rewrite (spell_u_spell _ Hcf) in H. cbn [kind_of_ctx] in H. injection H as <-. exact H2.
-      + destruct (is_nameable n) eqn:En.
-        * rewrite (inner_cf_nil n (cf_child _ _ Hcf (or_introl eq_refl))) in Hin. destruct Hin.
-        * apply (H3 eq_refl nm Hin).
+      destruct c; try contradiction.
+      simpl in Hkids2. pose proof (Forall_inv Hkids2) as [Hv Hsv].
+      assert (Hsl : forall s, fst (spine_with V n s) = Ok tt /\ forall nm, In (AGet, nm) (if is_nameable n then inner false n else []) -> reported nm (snd (spine_with V n s))).
+      { intros s. destruct (Hsv s) as [H1 H2]. split; [exact H1|]. intros nm Hin. destruct (is_nameable n); [exact (H2 nm Hin) | destruct Hin]. }
+      split.
+      + intros s. rewrite visit_star.
+        destruct (compound_good (EStar n Load p) n Load _ _ Hp eq_refl (kf_c10_plain _ Hp) (fun _ => Hv) (mono_spine_V n) Hsl s) as (H1 & H2 & H3 & H4).
+        split; [exact H1|]. intros nm Hin. cbn [occs] in Hin. rewrite (kf_c10_plain _ Hp) in Hin.
+        apply in_app_or in Hin. destruct Hin as [[H|[]]|Hin].
+        * rewrite (spell_u_spell _ Hcf) in H. cbn [kind_of_ctx] in H. injection H as <-. exact H2.
+        * destruct (is_nameable n) eqn:En; [exact (H4 nm Hin) | exact (H3 eq_refl nm Hin)].
+      + intros s. cbn [spine_with]. destruct (Hsl s) as [H1 H2]. split; [exact H1|].
+        intros nm Hin. cbn [inner] in Hin. destruct (is_nameable n); [exact (H2 nm Hin) | destruct Hin].
     - (* Constant *)
-      intros s. rewrite visit_const. split; [reflexivity|intros nm []].
+      split; [|apply Htriv; reflexivity]. intros s. rewrite visit_const. split; [reflexivity|intros nm []].
     - (* Tuple / List / Set *)
+      split; [|apply Htriv; reflexivity].
       intros s. rewrite visit_seq. simpl in Hkids. destruct (VL_good es Hkids s) as [H1 H2]. split; [exact H1|].
       intros nm Hin. cbn [occs] in Hin. rewrite olist_flat_map in Hin. apply in_flat_map in Hin.
       destruct Hin as (x & Hx & Hin). apply (H2 x nm Hx Hin).
     - (* Dict *)
+      split; [|apply Htriv; reflexivity].
       intros s. rewrite visit_dict. simpl in Hkids. apply Forall_app in Hkids. destruct Hkids as [Hks Hvs].
       destruct (VL_good ks Hks s) as [H1 H2]. rewrite (bind_ok _ _ s tt H1).
       destruct (VL_good vs Hvs (snd (VL ks s))) as [H3 H4]. split; [exact H3|].
@@ -183,39 +238,52 @@ Section Complete.
         apply mono_mapM_. intros z. apply (all_here _ _ (visit_retval_mono mexists modulename z)).
       + apply in_flat_map in Hin. destruct Hin as (x & Hx & Hin). apply (H4 x nm Hx Hin).
     - (* any other expression class *)
-      destruct binds; try contradiction.
+      destruct binds; try contradiction. split; [|apply Htriv; reflexivity].
       intros s. rewrite visit_other. simpl in Hkids. destruct (VL_good _ Hkids s) as [H1 H2]. split; [exact H1|].
       intros nm Hin. cbn [occs] in Hin. rewrite olist_flat_map in Hin. apply in_flat_map in Hin.
       destruct Hin as (x & Hx & Hin). apply (H2 x nm Hx Hin).
   Qed.
 
-  (* everything the specification lists for such an expression is a get *)
-  Lemma cf_occs_are_gets : forall n, CF n -> forall o, In o (occs false n) -> fst o = AGet.
+  Theorem call_free_loads_are_complete : forall n, CF n -> good n.
+  Proof. intros n H. exact (proj1 (call_free_loads_are_complete_and_slices n H)). Qed.
+
+  (* everything the specification lists for such an expression - and for the slices under its spine - is a get *)
+  Lemma cf_occs_and_inner_are_gets : forall n, CF n ->
+    (forall o, In o (occs false n) -> fst o = AGet) /\ (forall o, In o (inner false n) -> fst o = AGet).
   Proof.
-    induction n using node_children_ind. rename H into IH. intros Hcf o Hin.
+    induction n using node_children_ind. rename H into IH. intros Hcf.
     pose proof (all_here _ _ Hcf) as Hl. pose proof (cf_plain n Hcf) as Hp.
-    assert (Hkids : forall x, In x (children n) -> forall o, In o (occs false x) -> fst o = AGet).
+    assert (Hkids : forall x, In x (children n) -> (forall o, In o (occs false x) -> fst o = AGet) /\ (forall o, In o (inner false x) -> fst o = AGet)).
     { rewrite Forall_forall in IH. intros x Hx. apply IH; [exact Hx|apply (cf_child _ _ Hcf Hx)]. }
-    destruct n; simpl in Hl; try contradiction.
-    - destruct c; try contradiction. destruct Hin as [<-|[]]. reflexivity.
-    - destruct c; try contradiction. cbn [occs] in Hin. rewrite (kf_c10_plain _ Hp) in Hin.
-      apply in_app_or in Hin. destruct Hin as [[<-|[]]|Hin]; [reflexivity|].
-      destruct (is_nameable n); [rewrite (inner_cf_nil n (cf_child _ _ Hcf (or_introl eq_refl))) in Hin; destruct Hin|].
-      apply (Hkids n (or_introl eq_refl) o Hin).
-    - destruct c; try contradiction. cbn [occs] in Hin. rewrite (kf_c10_plain _ Hp), app_nil_r in Hin.
-      apply in_app_or in Hin. destruct Hin as [[<-|[]]|Hin]; [reflexivity|].
-      destruct (is_nameable n1); [rewrite (inner_cf_nil n1 (cf_child _ _ Hcf (or_introl eq_refl))) in Hin; destruct Hin|].
-      apply (Hkids n1 (or_introl eq_refl) o Hin).
-    - destruct c; try contradiction. cbn [occs] in Hin. rewrite (kf_c10_plain _ Hp) in Hin.
-      apply in_app_or in Hin. destruct Hin as [[<-|[]]|Hin]; [reflexivity|].
-      destruct (is_nameable n); [rewrite (inner_cf_nil n (cf_child _ _ Hcf (or_introl eq_refl))) in Hin; destruct Hin|].
-      apply (Hkids n (or_introl eq_refl) o Hin).
-    - cbn [occs] in Hin. rewrite olist_flat_map in Hin. apply in_flat_map in Hin. destruct Hin as (x & Hx & Hin).
-      apply (Hkids x Hx o Hin).
-    - cbn [occs] in Hin. rewrite !olist_flat_map in Hin. apply in_app_or in Hin.
+    destruct n; simpl in Hl; try contradiction; try (split; [|intros o []]).
+    - destruct c; try contradiction. intros o [<-|[]]. reflexivity.
+    - destruct c; try contradiction. destruct (Hkids n (or_introl eq_refl)) as [Ho Hi]. split.
+      + intros o Hin. cbn [occs] in Hin. rewrite (kf_c10_plain _ Hp) in Hin.
+        apply in_app_or in Hin. destruct Hin as [[<-|[]]|Hin]; [reflexivity|].
+        destruct (is_nameable n); [exact (Hi o Hin) | exact (Ho o Hin)].
+      + intros o Hin. cbn [inner] in Hin. destruct (is_nameable n); [exact (Hi o Hin) | destruct Hin].
+    - destruct c; try contradiction. destruct (Hkids n1 (or_introl eq_refl)) as [Ho Hi].
+      destruct (Hkids n2 (or_intror (or_introl eq_refl))) as [Hos _]. split.
+      + intros o Hin. cbn [occs] in Hin. rewrite (kf_c10_plain _ Hp) in Hin.
+        apply in_app_or in Hin. destruct Hin as [[<-|[]]|Hin]; [reflexivity|].
+        apply in_app_or in Hin. destruct Hin as [Hin|Hin]; [|exact (Hos o Hin)].
+        destruct (is_nameable n1); [exact (Hi o Hin) | exact (Ho o Hin)].
+      + intros o Hin. cbn [inner] in Hin. apply in_app_or in Hin. destruct Hin as [Hin|Hin]; [|exact (Hos o Hin)].
+        destruct (is_nameable n1); [exact (Hi o Hin) | destruct Hin].
+    - destruct c; try contradiction. destruct (Hkids n (or_introl eq_refl)) as [Ho Hi]. split.
+      + intros o Hin. cbn [occs] in Hin. rewrite (kf_c10_plain _ Hp) in Hin.
+        apply in_app_or in Hin. destruct Hin as [[<-|[]]|Hin]; [reflexivity|].
+        destruct (is_nameable n); [exact (Hi o Hin) | exact (Ho o Hin)].
+      + intros o Hin. cbn [inner] in Hin. destruct (is_nameable n); [exact (Hi o Hin) | destruct Hin].
+    - intros o [].
+    - intros o Hin. cbn [occs] in Hin. rewrite olist_flat_map in Hin. apply in_flat_map in Hin. destruct Hin as (x & Hx & Hin).
+      exact (proj1 (Hkids x Hx) o Hin).
+    - intros o Hin. cbn [occs] in Hin. rewrite !olist_flat_map in Hin. apply in_app_or in Hin.
       destruct Hin as [Hin|Hin]; apply in_flat_map in Hin; destruct Hin as (x & Hx & Hin);
-        apply (Hkids x); [simpl; apply in_or_app; left; exact Hx|exact Hin|simpl; apply in_or_app; right; exact Hx|exact Hin].
-    - destruct binds; try contradiction. cbn [occs] in Hin. rewrite olist_flat_map in Hin. apply in_flat_map in Hin.
-      destruct Hin as (x & Hx & Hin). apply (Hkids x Hx o Hin).
+        apply (proj1 (Hkids x ltac:(simpl; apply in_or_app; (left; exact Hx) || (right; exact Hx)))); exact Hin.
+    - destruct binds; try contradiction. intros o Hin. cbn [occs] in Hin. rewrite olist_flat_map in Hin. apply in_flat_map in Hin.
+      destruct Hin as (x & Hx & Hin). exact (proj1 (Hkids x Hx) o Hin).
   Qed.
+  Lemma cf_occs_are_gets : forall n, CF n -> forall o, In o (occs false n) -> fst o = AGet.
+  Proof. intros n H. exact (proj1 (cf_occs_and_inner_are_gets n H)). Qed.
 End Complete.
